@@ -843,13 +843,13 @@ func TestCheck(t *testing.T) {
 	// cheap cases and before the Argon2-bound corruptions, so that a deadline cap cuts those first)
 	seqPasses := []string{"P", "Q"}
 	seqDepth1 := vf.Pick(r, 3, 4)
-	seqAlpha1 := seqAlphabet([]string{"a"}, seqPasses)
+	seqAlpha1 := seqAlphabet([]string{"a"}, seqPasses, thorough)
 	nSeq0 := len(cases)
 	cases = append(cases, seqOneDirCases(seqAlpha1, seqDepth1)...)
 	var seqAlpha1E []seqOp
 	if thorough {
 		// a third passphrase (the empty one) at the quick depth
-		seqAlpha1E = seqAlphabet([]string{"a"}, []string{"P", "Q", "E"})
+		seqAlpha1E = seqAlphabet([]string{"a"}, []string{"P", "Q", "E"}, true)
 		cases = append(cases, seqOneDirCases(seqAlpha1E, 3)...)
 	}
 	counts["sequence_one_directory_histories"] = len(cases) - nSeq0
@@ -988,7 +988,7 @@ func TestCheck(t *testing.T) {
 	}
 	r.Finish(vf.Coverage{
 		Evaluations: done.Load(), DistinctNontrivial: nontrivial.Load(), States: int64(r.DistinctOutcomes()), Transitions: done.Load(),
-		Rule:       "plain nested loops, no sampling: every ordered (save,load) pair of the passphrase set × {created by the real writer, legacy salt-less} × {load, export}; every truncation length and every (position, replacement byte ≠ original) of signer.json, loaded/exported with the right passphrase; export→import→load/export for every save passphrase × import passphrases × {fresh, overwrite}; every ordered (written-in, opened-in) pair of environments within the GOMAXPROCS group and within the ambient (variables, cwd, umask) group, the check's process ↔ each re-executed child process, and every golden key file in every environment (serial phase before the workers; process globals restored afterwards); operation sequences: every history of exactly `depth` operations over the one-directory alphabet {create, load, export, import of a fixed key, export→import in place} × passphrases ∪ {junk import, delete by hand} executed in full without state merging and judged after every step against the reference model (what the directory holds, under which passphrase; the bytes of every key file are compared after every step, a difference after an operation that is not a successful write is settled by loading the saved key), and an explicit-state search (explore.BFS, histories merged on equal model states) over the same operations on two directories plus export(src)→import(dst) in both directions. Each case is a distinct input by construction; non-trivial = the input file still decodes as the key-file JSON (so key derivation and decryption are reached) or is an unmutated pair/roundtrip, or a sequence with at least one successful write; states = distinct (section, op, origin, result class) outcomes",
+		Rule:       "plain nested loops, no sampling: every ordered (save,load) pair of the passphrase set × {created by the real writer, legacy salt-less} × {load, export}; every truncation length and every (position, replacement byte ≠ original) of signer.json, loaded/exported with the right passphrase; export→import→load/export for every save passphrase × import passphrases × {fresh, overwrite}; every ordered (written-in, opened-in) pair of environments within the GOMAXPROCS group and within the ambient (variables, cwd, umask) group, the check's process ↔ each re-executed child process, and every golden key file in every environment (serial phase before the workers; process globals restored afterwards); operation sequences: every history of exactly `depth` operations over the one-directory alphabet {create, load, export, export→import in place (thorough: also import of a fixed key)} × passphrases ∪ {junk import, delete by hand} executed in full without state merging and judged after every step against the reference model (what the directory holds, under which passphrase; the bytes of every key file are compared after every step, a difference after an operation that is not a successful write is settled by loading the saved key), and an explicit-state search (explore.BFS, histories merged on equal model states) over the same operations on two directories plus export(src)→import(dst) in both directions. Each case is a distinct input by construction; non-trivial = the input file still decodes as the key-file JSON (so key derivation and decryption are reached) or is an unmutated pair/roundtrip, or a sequence with at least one successful write; states = distinct (section, op, origin, result class) outcomes",
 		Exhaustive: !capped.Load() && seq2.stats.Capped == "", Caps: caps, Bounds: bounds,
 		Extra: map[string]any{"oracle_failures_by_clause_and_input_features": breakdown},
 	})
